@@ -156,6 +156,18 @@ class Tracker:
         o = f[0]
         S = self.seqs
         if o == 'cat1':
+            js = [int(x) for x in f[1].split(',')]
+            rows = [[v for c in S[j]['c'] for v in self.cells[c]] for j in js]
+            if len({len(r) for r in rows}) != 1:
+                return 'err:Value'
+            out, k = [], 0
+            for c in S[js[0]]['c']:
+                e = []
+                for _ in self.cells[c]:
+                    e.append(cat_code([r[k] for r in rows]))
+                    k += 1
+                out.append(e)
+            self.add([self.cell(e) for e in out], narrow=True)
             return 'ok'
         if o in ('appbad', 'shrink'):
             if o == 'appbad':
@@ -361,7 +373,7 @@ def core_alphabet(g, tr, level):
     level 0 = reduced (growth / views / assignment / in-place), level 1 = full."""
     ops = []
     live = tr.live()
-    targets = live[-3:] if level == 0 else live[-4:]
+    targets = live[-2:] if level < 0 else live[-3:] if level == 0 else live[-4:]
     if live and live[0] not in targets:
         targets = [live[0]] + targets
     for i in targets:
@@ -675,6 +687,15 @@ def random_history(g, rng, depth, bytes_choices, ext=False):
 
 # ------------------------------------------------------------------ direct predicates
 EXT_OPS = ('appbad', 'shrink', 'gett', 'cat1')
+CAT_BASE = 100003
+
+
+def cat_code(vals):
+    """one integer for the row of a concatenate(axis=1) result: v0 + B*(v1 + B*(...)) (Model.v zip_rows)"""
+    acc = 0
+    for v in reversed(vals):
+        acc = v + CAT_BASE * acc
+    return acc
 
 
 def _check_ext(tok, f, res, prev, cur, prev_lay, cur_lay, nslots, k, fails, known):
@@ -716,13 +737,18 @@ def _check_ext(tok, f, res, prev, cur, prev_lay, cur_lay, nslots, k, fails, know
         elif res == 'ok' and cur.get(nslots) != [prev[i][p] for p in ps]:
             fails.append(('own_contents', k, f'{tok}: expected {[prev[i][p] for p in ps]} got {cur.get(nslots)}'))
         return False
-    # cat1: concatenate(axis=1), compared inside the child with the list model
-    r, _, flags = res.partition('|c=')
-    if not same or set(cur) != set(prev):
+    # cat1: concatenate(axis=1): element k of the result = element k of every operand side by side
+    js = [int(x) for x in f[1].split(',')]
+    ops_ = [prev[j] for j in js]
+    if [[len(e) for e in o_] for o_ in ops_].count([len(e) for e in ops_[0]]) != len(ops_):
+        return False      # different element structures: the list model has no answer (never generated)
+    exp = [[cat_code([o_[k][r] for o_ in ops_]) for r in range(len(ops_[0][k]))] for k in range(len(ops_[0]))]
+    if res != 'ok':
+        fails.append(('result', k, f'{tok}: expected ok, got {res}'))
+    elif not same:
         fails.append(('bystander_changed', k, f'{tok}: an operand changed'))
-    elif r != 'ok:good':
-        fails.append(('own_contents', k, f'{tok}: concatenate(axis=1) gave {r} (operands compact: {flags}); expected the '
-                      'column-wise concatenation of the operands\' elements'))
+    elif cur.get(nslots) != exp:
+        fails.append(('own_contents', k, f'{tok}: concatenate(axis=1) expected {exp} got {cur.get(nslots)}'))
     return False
 
 
@@ -796,7 +822,7 @@ def _check_history(toks, steps, lays, fails, known):
         if o in EXT_OPS:
             stop = _check_ext(tok, f, res, prev, cur, prev_lay, cur_lay, nslots, k, fails, known)
             tr.apply(tok)
-            if o == 'gett' and res == 'ok':
+            if o in ('gett', 'cat1') and res == 'ok':
                 nslots += 1
             if stop or fails:
                 return fails, known
@@ -1087,6 +1113,8 @@ class TTracker:
             return ps if isinstance(ps, str) else 'ok'
         if o in ('tiop', 'tiopp'):
             return 'ok' if ids else 'err:StopIteration'
+        if o == 'taff':
+            return 'ok'          # apply_affine returns early on an empty tractogram
         raise ValueError(tok)
 
     def written(self, tok):
@@ -1105,7 +1133,7 @@ class TTracker:
         return set(ids)
 
 
-WCOMP = {'tset': 'S', 'tsets': 'S', 'tiop': 'S', 'tsetp': 'P', 'tsetsp': 'P', 'tiopp': 'P', 'tsetm': 'M'}
+WCOMP = {'tset': 'S', 'tsets': 'S', 'tiop': 'S', 'tsetp': 'P', 'tsetsp': 'P', 'tiopp': 'P', 'tsetm': 'M', 'taff': 'S'}
 
 
 def check_thistory(toks, steps):
@@ -1143,6 +1171,8 @@ def check_thistory(toks, steps):
             def g(old):
                 if o in ('tiop', 'tiopp'):
                     return [apply_fn(f[2], v) for v in old]
+                if o == 'taff':
+                    return [v + int(f[2]) for v in old]
                 return [int(f[-1])] * len(old)
 
             def cat2(a, b):
@@ -1214,7 +1244,7 @@ def tract_core():
     out = []
     inits = ['tnew:1.2/3/4.5.6', 'tnew:7/8/9']
     writes = lambda d: [f'tset:{d}:0:77', f'tsetp:{d}:-1:88', f'tsetm:{d}:0:99', f'tsets:{d}:s,n,n,2:55',
-                        f'tsetsp:{d}:s,n,n,n:66', f'tiop:{d}:add,100', f'tiopp:{d}:mul,2']
+                        f'tsetsp:{d}:s,n,n,n:66', f'tiop:{d}:add,100', f'tiopp:{d}:mul,2', f'taff:{d}:100']
     for init in inits:
         # objects: 0 = source, 1 = Tractogram(), 2 = source[0:0], 3 = source[[]] (empty list index), 4 = another one
         pre = [init, 'tnew:-', 'tget:0:s,0,0,n', 'tget:0:l', 'tnew:20.21/22']
@@ -1265,7 +1295,7 @@ def tract_random(rng, depth):
         i = rng.choice(keyed)
         n = len(tr.ts[i]['S'])
         kind = rng.choice(['add', 'add', 'iadd', 'copy', 'get', 'get', 'set', 'setp', 'setm', 'sets', 'setsp', 'iop',
-                           'iopp', 'new', 'drop', 'eadd'])
+                           'iopp', 'new', 'drop', 'eadd', 'aff'])
         if len(live) > 8 and kind in ('add', 'copy', 'get', 'new'):
             kind = 'drop'
         if kind in ('add', 'iadd'):
@@ -1302,6 +1332,8 @@ def tract_random(rng, depth):
                 push(f't{kind}:{i}:mul,2')
             else:
                 push(f't{kind}:{i}:add,{rng.choice([10, 100])}')
+        elif kind == 'aff':
+            push(f'taff:{i}:{rng.choice([10, 100])}')
         elif kind == 'new':
             push('tnew:' + elems())
         elif kind == 'drop' and len(keyed) > 1 and i != 0:
